@@ -551,7 +551,7 @@ def run(ctx: Ctx) -> Outcome:
     live = gen_styles.collect()
     markers = [m["name"] for m in live["markers"]]
     dcs, box_classes, edge_classes, ports = table_classes()
-    out.table_obligations = 4 * (-(-len(live["entries"]) // gen_styles.ROWS_PER_CHUNK)) + 2 * (-(-len(live["symbols"]) // gen_styles.ROWS_PER_CHUNK)) + 9
+    out.table_obligations = 5 * (-(-len(live["entries"]) // gen_styles.ROWS_PER_CHUNK)) + 2 * (-(-len(live["symbols"]) // gen_styles.ROWS_PER_CHUNK)) + 11
 
     combos = [(k, c) for k in ("box", "symbol", "box_symbol") for c in box_classes] + \
              [(k, c) for k in ("edge", "circle") for c in edge_classes] + [("port", c) for c in ports]
@@ -574,6 +574,9 @@ def run(ctx: Ctx) -> Outcome:
     # ---- histories: several elements on one drawing (what is already in <defs> / deco_cache decides what is added)
     for i in range(ctx.pick(400, 4000)):
         elems = gen_history(ctx.rng, box_classes, edge_classes, markers, ports)
+        if i < 3:  # the three icons that share the inner id `brown_oval`, two at a time
+            trio = ["Mission", "Capability", "OperationalCapability"]
+            elems = [{"kind": "box", "uuid": f"_h-{j}", "cls": c, "style": {}, "label": "lbl"} for j, c in enumerate(trio[:i] + trio[i + 1:])]
         case = {"dc": ctx.rng.choice(dcs), "kind": "history", "cls": "+".join(e["cls"] for e in elems)[:60], "variant": f"history-{i}", "elems": elems}
         run_case(out, case, requests, pending, use_model, seq)
         out.case(("history", case["dc"], json.dumps(elems, sort_keys=True, default=str)), None)
@@ -795,6 +798,12 @@ def run(ctx: Ctx) -> Outcome:
             mm = {"viewBox": d["viewBox"], "groups": d["groups"], "refs": sorted(set(d["refs"])), "defs": d["defs"]}
             if mm != impl:
                 out.disagree("defs-sequence", key, impl, mm)
+            # `all_ids_unique_when_no_clash`: the decidable hypothesis, evaluated by the model, against the real document
+            real_ids = [i for e_ in impl["defs"] for i in e_[2]]
+            real_unique = len(real_ids) == len(set(real_ids))
+            if d["noClash"] != real_unique:
+                out.disagree("no-clash", key, {"all ids of <defs> pairwise different": real_unique}, {"noClash": d["noClash"]})
+            out.hit("defs-model:noClash:" + str(d["noClash"]).lower())
             for b in d["log"]:
                 out.hit("defs-model:" + b)
             out.extra["defs_sequence_cases"] = out.extra.get("defs_sequence_cases", 0) + 1
